@@ -56,9 +56,9 @@ CHECKS.update({
     'C16': {'engine': 'kani', 'design_ref': '5 C16', 'technique': 'Kani loop-free harnesses over all i8 exponents, every prefix row against the SI brochure table, iteration order, every valid UTF-8 abbreviation string of 0 to 3 bytes',
             'level_text': 'Exhaustive over the finite parts (256 exponents, 25 rows, every valid UTF-8 string of up to 3 bytes); complete proofs, no unwinding bound involved except the 25-element iteration.',
             'level_note': 'Trusted: spec/si_prefixes.toml transcribes the SI brochure; names are compared with the library\'s capitalised spelling; abbreviation strings longer than 3 bytes other than the table\'s own are not explored.'},
-    'C18': {'engine': 'verus+kani', 'design_ref': '5 C18', 'technique': 'Verus: every extracted function verifies without a precondition other than the same-unit guard (all panic sites unreachable; a failed assert!/panic!/unwrap is a failed precondition); Kani: automatic panic checks on the compiled lookups, _fit, converter, like, derived and rate operators over all f64 bit patterns; decimal configuration: the generic HasRefUnit methods verified with fpdec operator preconditions switched on, and lemmas deriving those preconditions from the property\'s range conditions under a stated fpdec contract',
-            'level_text': 'f64 configuration: unbounded proof for the arithmetic paths (Verus) and complete symbolic execution over all bit patterns for the iterator/unwrap paths (Kani). Decimal configuration: proof for the generic HasRefUnit methods (conversion, comparison, like arithmetic, _fit) under the assumed fpdec range contract; the generated derived operators are examined through their normal forms (natural-unit branch proved, fitted-unit branch refuted: known findings F4/F5, reproduced on the real code on every run); the rate operators and formatting are not covered for decimals (stated in the evidence).',
-            'level_note': 'Not covered: fmt paths (C15); decimal rate operators. Known findings F4, F5 (known_findings.json): derived product / quotient overflow in the decimal configuration. Assumed: A-fpdec-range (an fpdec operation with operands and exact result within 1e20, divisor non-zero, does not panic). Kani checks "NaN on <op>" are IEEE results, not panics, and are excluded.'},
+    'C18': {'engine': 'verus+kani', 'design_ref': '5 C18', 'technique': 'Verus: every extracted function verifies without a precondition other than the same-unit guard (all panic sites unreachable; a failed assert!/panic!/unwrap is a failed precondition); Kani: automatic panic checks on the compiled lookups, _fit, converter, like, derived and rate operators over all f64 bit patterns; decimal configuration: the generic HasRefUnit methods and Rate * q verified with fpdec operator preconditions switched on, and lemmas deriving those preconditions from the property\'s range conditions under a stated fpdec contract',
+            'level_text': 'f64 configuration: unbounded proof for the arithmetic paths (Verus) and complete symbolic execution over all bit patterns for the iterator/unwrap paths (Kani). Decimal configuration: proof for the generic HasRefUnit methods (conversion, comparison, like arithmetic, _fit) under the assumed fpdec range contract; the generated derived operators are examined through their normal forms (natural-unit branch proved, fitted-unit branch refuted: known findings F4/F5, reproduced on the real code on every run); the rate application Rate * q is verified with those preconditions too and its range lemma proved (the generated forwarding operators q * rate, q / rate enter through their normal forms); formatting is not covered (stated in the evidence).',
+            'level_note': 'Not covered: fmt paths (C15); per-type instantiation of the decimal preconditions of the generated rate operators. Known findings F4, F5 (known_findings.json): derived product / quotient overflow in the decimal configuration. Assumed: A-fpdec-range (an fpdec operation with operands and exact result within 1e20, divisor non-zero, does not panic). Kani checks "NaN on <op>" are IEEE results, not panics, and are excluded.'},
 })
 NOT_APPLICABLE = {
     'C06': 'quantifies over programs the type checker must reject; a function contract cannot state that an impl does not exist (DESIGN 7)',
